@@ -20,6 +20,7 @@ import (
 	"testing"
 	"testing/synctest"
 	"time"
+	"verif/sim/yieldpt"
 
 	"github.com/github/go-pipe/pipe"
 )
@@ -205,6 +206,8 @@ func RunA(t *testing.T, h Hooks, sc *Scenario, site *Site) *Result {
 	}
 	pipe.SimCommandStage = run.Factory
 	defer func() { pipe.SimCommandStage = nil }()
+	yieldpt.Set(sc.Plan.GoYields)
+	defer yieldpt.Set(nil)
 
 	var stdout bytes.Buffer
 	var stdoutW io.Writer = &stdout
